@@ -56,6 +56,29 @@ def norm(s):
     return re.sub(r"\s+", "", s)
 
 
+def norm_keep_literals(s):
+    """norm(), but white space inside character and string literals is kept (save() writes such literals into the file)"""
+    out, i = [], 0
+    s = re.sub(r"/\*.*?\*/", "", s, flags=re.S)
+    while i < len(s):
+        ch = s[i]
+        if ch in "\"'":
+            j = i + 1
+            while j < len(s) and s[j] != ch:
+                j += 2 if s[j] == "\\" else 1
+            out.append(s[i:j + 1])
+            i = j + 1
+        elif s.startswith("//", i):
+            while i < len(s) and s[i] != "\n":
+                i += 1
+        elif ch.isspace():
+            i += 1
+        else:
+            out.append(ch)
+            i += 1
+    return "".join(out)
+
+
 def unwrap(n):
     while n.get("kind") in ("ImplicitCastExpr", "ExprWithCleanups", "MaterializeTemporaryExpr", "ParenExpr",
                             "CXXBindTemporaryExpr", "CXXFunctionalCastExpr", "CXXStaticCastExpr",
@@ -373,8 +396,8 @@ def read_save(src, typedefs):
     if len(cands) != 1:
         raise TranslateError("save(std::string) definition not found")
     body = [c for c in cands[0]["inner"] if c["kind"] == "CompoundStmt"][0]
-    t = norm(rng_text(body, src))
-    m = re.match(r'\{std::ofstreamofs\(fname\.c_str\(\)\);ofs<<"#"<<vfps::inovesa_version\(\)<<std::endl;'
+    t = norm_keep_literals(rng_text(body, src))
+    m = re.match(r'\{std::ofstreamofs\(fname\.c_str\(\)\);ofs<<"# ?"<<vfps::inovesa_version\(\)<<std::endl;'
                  r'for\(autoit=_vm\.begin\(\);it!=_vm\.end\(\);(?:it\+\+|\+\+it)\)\{(.*)\}\}$', t)
     if not m:
         raise TranslateError("save(): frame (open, version comment, loop over _vm) not understood")
@@ -441,11 +464,39 @@ def read_save(src, typedefs):
         W["types"].append(ty)
         W["precise"][ty] = pr
         t = t[mm.end():]
+    # the string branch: one unconditional `ofs << a << b << ...;` chain whose operands are the name, the value (plain or
+    # through std::quoted), character / string literals and std::endl - emitted as gen_string_line (Model/CfgText.v); the
+    # token-level rule [w_comment] needs the chain to be  name '=' value endl  in this order, whatever the value's spelling
     m = re.fullmatch(r'else\{std::stringval;try\{if\(it->first=="(\w+)"\)\{ofs<<\'#\';\}val=_vm\[it->first\]\.as<std::string>\(\);'
-                     r'ofs<<it->first<<\'=\'<<val<<std::endl;\}catch\(constboost::bad_any_cast&\)\{\}\}', t)
+                     r'ofs((?:<<(?:it->first|val|std::quoted\(val\)|std::endl|\'(?:[^\'\\]|\\.)\'|"(?:[^"\\]|\\.)*"))+);'
+                     r'\}catch\(constboost::bad_any_cast&\)\{\}\}', t)
     if not m:
-        raise TranslateError("save(): string branch not understood: %s" % t[:120])
+        raise TranslateError("save(): string branch not understood: %s" % t[:160])
     W["comment"] = [m.group(1)]
+    pieces = []
+    for op in re.findall(r'<<(it->first|val|std::quoted\(val\)|std::endl|\'(?:[^\'\\]|\\.)\'|"(?:[^"\\]|\\.)*")', m.group(2)):
+        if op == "it->first":
+            pieces.append(("name",))
+        elif op == "val":
+            pieces.append(("val",))
+        elif op == "std::quoted(val)":
+            pieces.append(("quoted",))
+        elif op == "std::endl":
+            pieces.append(("endl",))
+        else:
+            body = op[1:-1]
+            if "\\" in body:
+                esc = {"\\n": "\n", "\\t": "\t", "\\\\": "\\", "\\'": "'", '\\"': '"'}
+                if body not in esc:
+                    raise TranslateError("save(): string branch: escape %s in a literal is not modelled" % body)
+                body = esc[body]
+            pieces.append(("lit", body))
+    if pieces and pieces[-1] == ("lit", "\n"):
+        pieces[-1] = ("endl",)              # a final line feed written as a literal: the same text as std::endl
+    kinds = [x[0] for x in pieces]
+    if kinds.count("name") != 1 or kinds.count("val") + kinds.count("quoted") != 1 or kinds[-1] != "endl" or kinds.count("endl") != 1:
+        raise TranslateError("save(): string branch does not write the name once, the value once and one final std::endl")
+    W["string_line"] = pieces
     return W
 
 
@@ -545,7 +596,9 @@ def translate():
     L.append("(* GENERATED on every run by translate/options2coq.py from src/IO/ProgramOptions.cpp")
     L.append("   (constructor, parse, save(std::string)). Do not edit. *)")
     L.append("From Coq Require Import List String ZArith.")
+    L.append("From Coq Require Ascii.")
     L.append("From Inovesa Require Import Model.OptionsTypes.")
+    L.append("From Inovesa Require Model.CfgText.")
     L.append("Import ListNotations.")
     L.append("Local Open Scope string_scope.")
     L.append("")
@@ -586,6 +639,14 @@ def translate():
     L.append("  [%s]" % "; ".join(W["types"]))
     L.append("  %s" % ("true" if prec else "false"))
     L.append("  [%s]." % "; ".join(coq_str(s) for s in W["comment"]))
+    L.append("")
+    L.append("(* save(): the `ofs << ...` chain that writes a string option, operand by operand (Model/CfgText.v) *)")
+
+    def piece(x):
+        if x[0] == "lit":
+            return "CfgText.WLit [%s]" % "; ".join("Ascii.ascii_of_nat %d" % b for b in x[1].encode())
+        return {"name": "CfgText.WName", "val": "CfgText.WVal", "quoted": "CfgText.WQuotedVal", "endl": "CfgText.WEndl"}[x[0]]
+    L.append("Definition gen_string_line : list CfgText.wpiece := [%s]." % "; ".join(piece(x) for x in W["string_line"]))
     info = dict(table=table, names=names, defaults=defaults, prog=prog, wrules=W, inits=inits, cfgopt=cfgopt[0],
                 precise=prec)
     return "\n".join(L) + "\n", info
